@@ -118,14 +118,26 @@ pub struct Out {
     pub ops: Vec<String>,
     pub oracle_fail: Vec<String>,
     pub oracle_evals: u64,
+    /// when set (`ops` command), operation lines are written here as they are produced
+    /// instead of being collected in `ops` (the thorough C17 corpus has ~10^8 lines)
+    pub sink: Option<std::io::BufWriter<std::fs::File>>,
+    /// number of operation lines produced (collected or streamed)
+    pub n_ops: usize,
 }
 
 impl Out {
     pub fn new() -> Out {
-        Out { ops: Vec::new(), oracle_fail: Vec::new(), oracle_evals: 0 }
+        Out { ops: Vec::new(), oracle_fail: Vec::new(), oracle_evals: 0, sink: None, n_ops: 0 }
     }
     pub fn op(&mut self, lhs: String, rhs: String) {
-        self.ops.push(format!("{} => {}", lhs, rhs));
+        self.n_ops += 1;
+        match self.sink.as_mut() {
+            Some(f) => {
+                use std::io::Write;
+                writeln!(f, "{} => {}", lhs, rhs).unwrap();
+            }
+            None => self.ops.push(format!("{} => {}", lhs, rhs)),
+        }
     }
     /// `lhs` is the operation line (left-hand side) that reproduces the failure.
     pub fn fail(&mut self, prop: &str, lhs: &str, what: String) {
